@@ -71,6 +71,8 @@ def gen_strings(ctx, bse):
                 s += rng.choice(seps)
         if rng.random() < 0.1:
             s = rng.choice(seps) + s
+        if re.search(r'\d{7}', re.sub(r'\s+', '', s)):     # the library deletes white space, gluing numbers together
+            continue        # 'a-b' with 7+ digit numbers makes the library build a list of that many integers (memory), not a property matter
         out.append(s)
     return out
 
@@ -300,7 +302,19 @@ def run(ctx):
         except Exception:
             continue
         for z, el in b['elements'].items():
-            els.append(el)
+            # contraction_string reads only the momenta and the list lengths: keep a skeleton, not the whole basis
+            # (200 complete dictionaries held at once need tens of GB)
+            sk = {}
+            if 'electron_shells' in el:
+                sk['electron_shells'] = [dict(angular_momentum=list(sh['angular_momentum']), exponents=['1.0'] * len(sh['exponents']),
+                                              coefficients=[['1.0'] * len(c) for c in sh['coefficients']]) for sh in el['electron_shells']]
+            if 'ecp_electrons' in el:
+                sk['ecp_electrons'] = el['ecp_electrons']
+            # the skeleton must give the same summary as the real element
+            if call(misc.contraction_string, el) != call(misc.contraction_string, sk) or call(misc.contraction_string, el, True) != call(misc.contraction_string, sk, True):
+                R.violation('contraction_counts', 'misc.contraction_string', 'summary depends on more than the momenta and the list lengths', dict(basis=k, z=z))
+            els.append(sk)
+        del b
     for _ in range(ctx.n(200, 2000)):
         shells = []
         for _ in range(rng.randrange(0, 7)):
